@@ -2,6 +2,8 @@ package model
 
 import (
 	"fmt"
+
+	"verifsim/sdl"
 )
 
 // CheckRegistryTrace is the C04 reference state machine, run over a recorded history of
@@ -193,6 +195,20 @@ func (w *World) CheckContinuation(out *Outcome, o *Obs) []Violation {
 		if w.hasSubst() || !failedDuringRun[c.Inst] {
 			// the completeness demand concerns instances whose own creation failed
 			continue
+		}
+		// nothing of the failed attempt stays visible: the re-created instance is wired as a
+		// first attempt would have wired it (no candidate left over from the failed attempt)
+		for _, pt := range t.Points {
+			seen := map[string]int{}
+			for _, x := range c.Points[pt.Field] {
+				seen[x]++
+			}
+			for _, x := range sdl.SortedKeys(seen) {
+				if seen[x] > 1 {
+					vs = append(vs, v("C04", "re-created-instance-carries-leftovers", c.Inst, fmt.Sprintf("the creation of %s failed during Run; the later lookup re-created it, and its point %s now holds %s %d times: candidates resolved by the failed attempt were kept and resolved again", c.Inst, pt.Field, x, seen[x])))
+					break
+				}
+			}
 		}
 		// returned with a nil error: must be complete
 		for _, pt := range t.Points {
